@@ -462,17 +462,22 @@ func (b *assignmentBuilder) isStructFieldAccessible(structNode bmodel.Node, leaf
 	if !util.IsStructType(structType) {
 		return false
 	}
-	if named, ok := structType.(*types.Named); ok {
-		return !b.isExternalPkg(named.Obj().Pkg()) || ast.IsExported(leafName)
+	if ast.IsExported(leafName) {
+		return true
 	}
-	// An unnamed struct type: its members belong to the package that declares them,
-	// e.g. an anonymous struct used as a field type inside an imported type.
+
+	// An unexported member is accessible only from the package that declares it. For a field
+	// that is the package in which the struct type was written - not necessarily the package of
+	// the named type: 'type Local other.Struct', or an anonymous struct inside an imported type.
 	if strct, ok := structType.Underlying().(*types.Struct); ok {
 		for i := 0; i < strct.NumFields(); i++ {
 			if field := strct.Field(i); field.Name() == leafName {
-				return !b.isExternalPkg(field.Pkg()) || ast.IsExported(leafName)
+				return !b.isExternalPkg(field.Pkg())
 			}
 		}
+	}
+	if named, ok := structType.(*types.Named); ok {
+		return !b.isExternalPkg(named.Obj().Pkg())
 	}
 	return true
 }
